@@ -594,6 +594,35 @@ def coverage_case(rng, n):
     return g.line(), g.stats
 
 
+def search_case(rng):
+    """dht::DhtSearch driven directly: offers (many near the target, duplicates, more than the 18 it
+    keeps), hand-outs up to and beyond the concurrency limit, answers / failures, final trim"""
+    target = rng.getrandbits(160)
+    pool = [near(rng, target, rng.choice([0, 1, 2, 5, 20, 100, 158])) for _ in range(rng.choice([3, 10, 25, 40]))]
+    pool += [target, target ^ 1]
+    ops = []
+    st = {}
+    for _ in range(rng.choice([10, 40, 120])):
+        r = rng.random()
+        if r < 0.45:
+            i = rng.choice(pool)
+            ops.append("a,%s,%d,%d" % (hid(i), (10 << 24) + rng.getrandbits(16), rng.randrange(1, 65536)))
+        elif r < 0.75:
+            ops.append("g")
+        elif r < 0.93:
+            ops.append("s,%s,%d" % (rng.choice(["first", "last"]), rng.random() < 0.6))
+        elif r < 0.96:
+            ops.append("t")
+        elif r < 0.99:
+            ops.append("b")
+        else:
+            ops.append("s,%s,1" % hid(rng.choice(pool)))       # mostly not active: internal_error
+    ops += ["b"] + ["g", "s,first,1"] * rng.choice([0, 5, 60]) + ["s,first,0"] * 4
+    for o in ops:
+        st[o[0]] = st.get(o[0], 0) + 1
+    return "S %s %s" % (hid(target), " ".join(ops)), {("search-" + k): v for k, v in st.items()}
+
+
 def many_peers_case(rng, n):
     g = Gen(rng)
     ih = g.ihs[0]
@@ -710,6 +739,8 @@ def gen(seed, tier):
         add("dgram-absent", dgram_absent_case(rng))
     for _ in range(30 if q else 400):
         add("tx", tx_case(rng))
+    for _ in range(40 if q else 500):
+        add("search", search_case(rng))
     for _ in range(2 if q else 10):
         add("dgram-ports", dgram_ports_case(rng))
     for n in ([40] if q else [33, 64, 130]):
